@@ -371,6 +371,13 @@ impl<W: 'static, R: 'static, T: 'static> XGenerator<W, R, T> {
                                     if let Ok(Ok(eq)) = eq {
                                         let &eq = to_primitive!(eq, Bool);
                                         if eq {
+                                            // the open group is held in memory before it becomes a value
+                                            if let Err(violation) = rt.can_allocate(
+                                                (current_group.len() + 1)
+                                                    * size_of::<Rc<ManagedXValue<W, R, T>>>(),
+                                            ) {
+                                                return Some(Err(violation));
+                                            }
                                             current_group.push(i);
                                             None
                                         } else {
@@ -417,6 +424,12 @@ impl<W: 'static, R: 'static, T: 'static> XGenerator<W, R, T> {
                         }
 
                         if let Ok(Ok(i)) = i {
+                            // the window is held in memory whether or not it ever becomes a value
+                            if let Err(violation) = rt.can_allocate(
+                                (memory.len() + 1) * size_of::<Rc<ManagedXValue<W, R, T>>>(),
+                            ) {
+                                return Some(Err(violation));
+                            }
                             memory.push_back(i);
                             if memory.len() == *size {
                                 let seq = ManagedXValue::new(
